@@ -199,7 +199,10 @@ func (b *Roles) GetPassCode(name string) (*rolesapi.PassCode, error) {
 func (b *Roles) SetupWithCode(
 	name string, id *identity.Identity, code string, t time.Time,
 ) error {
-	return b.mutate(name, func(r *role) error {
+	// A failed check must not abort the mutation: the incremented attempt
+	// counter has to be saved.
+	var checkErr error
+	if err := b.mutate(name, func(r *role) error {
 		if r.Role.Disabled {
 			return errcode.InvalidArgf("role is disabled")
 		}
@@ -207,12 +210,16 @@ func (b *Roles) SetupWithCode(
 			r.PassCode.Tried++
 		}
 		if err := checkPassCode(code, r.PassCode, t); err != nil {
-			return err
+			checkErr = err
+			return nil
 		}
 		r.Identity = id
 		r.PassCode.Consumed = true
 		return nil
-	})
+	}); err != nil {
+		return err
+	}
+	return checkErr
 }
 
 // VerifySelfToken checks the self-signed JWT token.
